@@ -1,4 +1,4 @@
-import Proofs.Lemmas.Find
+import Proofs.Lemmas.Spec
 import Proofs.Audit
 /-!
 # C01 — `FileSet.find` returns exactly the files that overlap the requested period
@@ -17,86 +17,6 @@ level"): the temporal values in the directory names are the calendar fields of `
 `TM.period_le_res`: every real month / year is at most that long).
 -/
 open FS TM
-
-/-- the declarative selection of the property for the semi-open period `[start, stop)` -/
-def Selected (cfg : Config) (F : Filters) (start stop : Nat) (f : FileRec) : Prop :=
-  f.t0 < stop ∧ start ≤ f.t1 ∧
-  ¬ (f.id ∈ cfg.exclNames ∨ ∃ p ∈ cfg.exclTimes, p.1 ≤ f.t1 ∧ f.t0 ≤ p.2) ∧
-  whiteOk F.white f.users = true ∧ blackOk F.black f.users = true
-
-/-- the files of an answer, bundled or not -/
-def Out.files : Out → List FileRec
-  | .flat l => l
-  | .bundles bs => bs.flatten
-
-/-- order of the sort key `(t0, t1)` -/
-def KeyLe (a b : FileRec) : Prop := a.t0 < b.t0 ∨ (a.t0 = b.t0 ∧ a.t1 ≤ b.t1)
-
-private theorem sel_iff {cfg : Config} {F : Filters} {s e stop : Nat} (f : FileRec)
-    (hse : e + 1 = stop) : sel cfg F s e f = true ↔ Selected cfg F s stop f := by
-  unfold sel Selected overlaps
-  simp only [Bool.and_eq_true, decide_eq_true_eq, Bool.not_eq_true', ← Bool.not_eq_true,
-    isExcluded_iff]
-  constructor
-  · rintro ⟨⟨⟨⟨h1, h2⟩, h3⟩, h4⟩, h5⟩; exact ⟨by omega, h2, h3, h4, h5⟩
-  · rintro ⟨h1, h2, h3, h4, h5⟩; exact ⟨⟨⟨⟨by omega, h2⟩, h3⟩, h4⟩, h5⟩
-
-private theorem keyLe_iff (a b : FileRec) : keyLe a b = true ↔ KeyLe a b := by
-  unfold keyLe KeyLe; simp
-
-private theorem findRaw_ok {cfg : Config} {q : Query} {pop raw : List FileRec}
-    (h : findRaw cfg q pop = .ok raw) :
-    ∃ s e ds, period cfg q = .ok (s, e, ds) ∧ raw = pop.filter (keep cfg q.filters s e ds) := by
-  unfold findRaw at h
-  cases hp : period cfg q with
-  | error err => rw [hp] at h; cases h
-  | ok v =>
-    obtain ⟨s, e, ds⟩ := v
-    rw [hp] at h
-    simp only [Except.ok.injEq] at h
-    exact ⟨s, e, ds, rfl, h.symm⟩
-
-private theorem prepare_files_perm {raw : List FileRec} {sort : Bool} {b : Bundle} {out : Out}
-    (h : prepare raw sort b = .ok out) : (Out.files out).Perm raw := by
-  unfold prepare at h
-  cases b with
-  | none =>
-    simp only [Except.ok.injEq] at h
-    subst h
-    unfold Out.files
-    by_cases hs : sort = true
-    · simp only [hs, if_true]; exact sortFiles_perm raw
-    · simp only [hs]; exact List.Perm.refl _
-  | count n =>
-    by_cases hn : n = 0
-    · simp [hn] at h
-    · simp only [hn, if_false, Except.ok.injEq] at h
-      subst h
-      unfold Out.files chunksOf
-      simp only []
-      rw [chunksAux_flatten n (by omega) _ _ (le_refl _)]
-      exact sortFiles_perm raw
-  | freq w =>
-    simp only [] at h
-    split at h
-    · cases h
-    · simp only [Except.ok.injEq] at h
-      subst h
-      unfold Out.files
-      exact ((groupByBin_props w _).1).trans (sortFiles_perm raw)
-
-private theorem find_ok {cfg : Config} {q : Query} {sort : Bool} {b : Bundle} {nf : Bool}
-    {pop : List FileRec} {out : Out} (h : find cfg q sort b nf pop = .ok out) :
-    ∃ raw, findRaw cfg q pop = .ok raw ∧ prepare raw sort b = .ok out := by
-  unfold find at h
-  cases hr : findRaw cfg q pop with
-  | error err => rw [hr] at h; cases h
-  | ok raw =>
-    rw [hr] at h
-    simp only [] at h
-    by_cases hc : (nf && raw.isEmpty) = true
-    · rw [if_pos hc] at h; cases h
-    · rw [if_neg hc] at h; exact ⟨raw, rfl, h⟩
 
 /-- **C01_nothing_else** (soundness, no placement hypothesis): whatever `find` yields —
 sorted or not, bundled or not — is a file of the population whose coverage `[t0, t1]`
